@@ -18,6 +18,41 @@ func (k cacheKey) String() string {
 	return fmt.Sprintf("%s %s %s %s", k.ctx, k.qclass, k.qtype, k.qname)
 }
 
+// newCacheKey keys a response by the question as it is on the wire. The name is
+// spelled like q.Name, except that a dot or backslash inside a label is
+// escaped: q.Name joins labels with dots, so the single label "a.b" and the two
+// labels "a", "b" would otherwise share a cache entry.
+func newCacheKey(ctx string, q query.Query) cacheKey {
+	return cacheKey{ctx, q.Class, q.Type, wireName(q)}
+}
+
+func wireName(q query.Query) string {
+	p := q.Payload
+	var b []byte
+	for i := 12; i < len(p); {
+		l := int(p[i])
+		if l == 0 {
+			if len(b) == 0 {
+				return "."
+			}
+			return string(b)
+		}
+		if l&0xc0 != 0 || i+1+l > len(p) {
+			break
+		}
+		for _, c := range p[i+1 : i+1+l] {
+			if c == '.' || c == '\\' {
+				b = append(b, '\\')
+			}
+			b = append(b, c)
+		}
+		b = append(b, '.')
+		i += 1 + l
+	}
+	// Compressed or malformed question name.
+	return q.Name
+}
+
 type cacheValue struct {
 	time  time.Time
 	msg   []byte
